@@ -1906,7 +1906,9 @@ MANIFEST = {
                   'the repaired get_sample_times (k * den / num) equals grid_time under its guard and so does every time the '
                   'model of get_sample_times returns.  time_windows_to_samples on arbitrary binary64 inputs: model conv64 '
                   '(product rounded to binary64), variants equal, within 2^-30 of the exact conversion for products up to 2^22, '
-                  'equal to it for representable products.  Not translated: _average_windows_numba (needs while loops with a '
+                  'equal to it for representable products.  Which side of an edge: the grid is monotone and, below 2^52 samples, strictly '
+                  'monotone, so a jump stored at b64 (j / rate) has sample k at or after it iff k >= j (C20_grid_edge_side).  The '
+                  'model of get_sample_times meets spec_times under the guard (C20_sample_times_meets_spec).  Not translated: _average_windows_numba (needs while loops with a '
                   'termination measure, lazily evaluated `and` whose right operand subscripts an array, tuple unpacking of '
                   '.shape, 2-D row views with broadcasting += and /=, NaN rows): its model avg_loop is tied to the code by '
                   'correspondence only.',
